@@ -38,6 +38,40 @@ fn classes(hs: &[u64]) -> Vec<usize> {
 		.collect()
 }
 
+/// the same value, physically different: spilled-and-shrunk string buffers, spare capacity, an index with history
+fn reshape(v: &Value) -> Value {
+	match v {
+		Value::String(s) => {
+			let mut t: json_syntax::String = "a long filler that forces the small string onto the heap".into();
+			t.clear();
+			t.push_str(s.as_str());
+			Value::String(t)
+		}
+		Value::Array(a) => {
+			let mut b = Vec::with_capacity(a.len() + 37);
+			b.extend(a.iter().map(reshape));
+			Value::Array(b)
+		}
+		Value::Object(o) => {
+			let mut n = json_syntax::Object::new();
+			for i in 0..20 {
+				n.push(format!("filler{i}").as_str().into(), Value::Null);
+			}
+			for e in o.iter() {
+				let mut k: json_syntax::object::Key = "another long filler that forces the key onto the heap".into();
+				k.clear();
+				k.push_str(e.key.as_str());
+				n.push(k, reshape(&e.value));
+			}
+			for i in 0..20 {
+				let _ = n.remove(format!("filler{i}").as_str()).count();
+			}
+			Value::Object(n)
+		}
+		other => other.clone(),
+	}
+}
+
 pub fn record(args: &Args) {
 	let domains = args.num("domains", 3);
 	let size = args.num("size", 40);
@@ -92,6 +126,10 @@ pub fn record(args: &Args) {
 				vals[i] = Value::Array(vec![vals[i].clone()]);
 			}
 		}
+		// twins: values with the same content but another physical shape (a string / key buffer that has spilled to the heap
+		// and shrunk back, vectors with spare capacity, an object rebuilt after removals)
+		let twins: Vec<Value> = vals.iter().take(5).map(|v| reshape(v)).collect();
+		vals.extend(twins);
 		let n = vals.len();
 		let eq: Vec<Vec<bool>> = (0..n).map(|i| (0..n).map(|j| vals[i] == vals[j]).collect()).collect();
 		let cmp: Vec<Vec<i64>> = (0..n).map(|i| (0..n).map(|j| ord(vals[i].cmp(&vals[j]))).collect()).collect();
